@@ -20,7 +20,7 @@ RULE_TEXT = (
     "connections in the same process (abandoned before, or interleaved with, the judged one), each judged against its own bytes. non-trivial = at least one chunk boundary or "
     "the stream end fell inside a message; distinct = distinct (stream, cut set, ending)"
 )
-PROBES = ["other_connections", "cut_inside_header", "cut_inside_payload", "eof_inside_header", "eof_inside_payload", "rejected_header", "one_byte_chunks", "reset"]
+PROBES = ["payload_in_1000_pieces", "other_connections", "cut_inside_header", "cut_inside_payload", "eof_inside_header", "eof_inside_payload", "rejected_header", "one_byte_chunks", "reset"]
 RUNS = {"quick": 30000, "thorough": 2000000}
 
 
@@ -111,6 +111,10 @@ def gen(seed, idx, tier):
     u = r.random()
     if u < 0.15 and len(s) <= 600:
         cuts = list(range(1, len(s)))
+    elif u < 0.18 and len(s) <= 9000:
+        # a long stream in pieces of 1-3 bytes: a payload arrives in more than a thousand pieces
+        step = r.choice([1, 1, 2, 3])
+        cuts = list(range(step, len(s), step))
     elif u < 0.5:
         cuts = sorted(r.sample(range(1, max(2, len(s))), min(max(0, len(s) - 1), r.randint(0, 12)))) if len(s) > 2 else []
     else:
@@ -247,6 +251,8 @@ def check(plan, res):
         else:
             if err is not None:
                 viol.append(("EQUIV", {"msg": f"stream still open, reader raised {err[0]}", "context": "error-on-open-stream"}))
+    if len(plan.get("cuts", [])) > 1000:
+        probes["payload_in_1000_pieces"] = 1
     # coverage probes
     bounds = []
     pos = 0
